@@ -1311,6 +1311,7 @@ Proof.
       rewrite (afind_aset_other name_eqb name_eqb_spec) by exact Hne. auto. }
     eexists. reflexivity.
   - cbn [upload_ok wire wf_item] in *. apply andb_true_iff in Hu. destruct Hu as [Hc Hu].
+    apply andb_true_iff in Hc. destruct Hc as [Hc _].
     destruct (frame_accept d s f Hw Hc) as (s' & E). rewrite E.
     pose proof (step_record d s (I_frame f) s' Hw E) as Hrec. cbn in Hrec.
     destruct (IH s' (map fst (announced d f) ++ known) Hall Hu) as (sts & ->).
@@ -1393,4 +1394,309 @@ Proof.
   unfold frame_decide in H1. rewrite Hid in H1. cbn [ID_1212 ID_1210 ID_1211 N.eqb Pos.eqb] in H1.
   rewrite Hp in H1. cbn [with_msg set_hist s_record] in H1. rewrite Hf in H1.
   injection H1 as _ <- _ _ <-. split; reflexivity.
+Qed.
+
+(* ====================== 8. fuel, prefixes, the link to C16, every event ====================== *)
+(* ---------- the loop's fuel is never what stops it ---------- *)
+Lemma lex_chunk_size d b hl nm off dlen : lex d b = L_chunk hl nm off dlen -> 0 < hl /\ hl + dlen <= len b.
+Proof.
+  unfold lex. destruct (has_prefix MARKER b).
+  - destruct (negb (has_min_head d b)). discriminate.
+    unfold parse_head. destruct (d =? D_HLJ).
+    + set (h0 := 4 + 1 + at_ b 4 + 4 + 4). assert (0 < h0) as Hh by (unfold h0; lia). clearbody h0.
+      destruct (_ <=? len b) eqn:E; [|discriminate]. intros H. injection H as <- _ _ <-.
+      split. exact Hh. apply N.leb_le, E.
+    + set (h0 := 62). assert (0 < h0) as Hh by (unfold h0; lia). clearbody h0.
+      destruct (_ <=? len b) eqn:E; [|discriminate]. intros H. injection H as <- _ _ <-.
+      split. exact Hh. apply N.leb_le, E.
+  - destruct (len b <? 10). discriminate. destruct (index_of SIGN (tl b)); discriminate.
+Qed.
+
+Lemma index_of_lt b : forall l i, index_of b l = Some i -> i < len l.
+Proof.
+  induction l as [|x t IH]; intros i H; cbn [index_of] in H. discriminate.
+  rewrite len_cons. destruct (x =? b). injection H as <-. lia.
+  destruct (index_of b t) as [j|]; [|discriminate]. injection H as <-. specialize (IH j eq_refl). lia.
+Qed.
+
+Lemma lex_frame_size d b index : lex d b = L_frame index -> 2 <= index /\ index <= len b.
+Proof.
+  unfold lex. destruct (has_prefix MARKER b).
+  - destruct (negb (has_min_head d b)). discriminate.
+    destruct (parse_head d b) as [[[hl' nm'] off'] dlen']. destruct (hl' + dlen' <=? len b); discriminate.
+  - destruct (len b <? 10) eqn:E. discriminate.
+    destruct (index_of SIGN (tl b)) as [i|] eqn:Ei; [|discriminate]. intros H. injection H as <-.
+    apply index_of_lt in Ei. destruct b. cbv in E. discriminate. cbn [tl] in Ei. rewrite len_cons. lia.
+Qed.
+
+Lemma step_consumes d s s' : Attach.step d s = O_ok s' -> (length (s_hist s') < length (s_hist s))%nat.
+Proof.
+  unfold Attach.step. destruct (lex d (s_hist s)) as [|hl nm off dlen|index] eqn:El. discriminate.
+  - apply lex_chunk_size in El. unfold do_chunk. destruct (afind name_eqb nm (s_record s)); [|discriminate].
+    intros H. injection H as <-. cbn [after_chunk s_hist]. rewrite skipn_length. unfold len in El. lia.
+  - apply lex_frame_size in El. unfold do_frame. destruct (decode _) as [m| |]; try discriminate.
+    intros H. apply frame_core_keeps_hist in H. rewrite H, s_hist_set, skipn_length. unfold len in El. lia.
+Qed.
+
+Theorem iter_fuel d : forall f1 f2 s, (length (s_hist s) < f1)%nat -> (length (s_hist s) < f2)%nat ->
+  iter f1 d s = iter f2 d s.
+Proof.
+  induction f1 as [|f1 IH]; intros f2 s H1 H2. lia.
+  destruct f2 as [|f2]. lia.
+  cbn [Attach.iter]. destruct (s_hist s) eqn:Eh. reflexivity. rewrite <- Eh in *.
+  destruct (Attach.step d s) as [s'| |s'] eqn:E; try reflexivity.
+  apply step_consumes in E. rewrite (IH f2 s') by lia. reflexivity.
+Qed.
+
+(* ---------- a proper prefix of an item waits for more data, it is never a fatal error ---------- *)
+Theorem prefix_waits d it p x : wf_item d it -> p ++ x = wire d it -> x <> [] -> p <> [] -> lex d p = L_more.
+Proof. intros Hw H Hx Hp. apply lex_ppart; [|exact Hp]. eapply proper_prefix_ppart; eauto. Qed.
+
+(* ---------- the recorded chunks are what C16 assumes ---------- *)
+Lemma pieces_range ps : forall off o p, In (o, p) (pieces off ps) -> off <= o /\ o + len p <= off + len (concat ps).
+Proof.
+  induction ps as [|q ps IH]; intros off o p H; cbn [pieces] in H. contradiction.
+  cbn [concat]. rewrite len_app. destruct H as [E|H]. injection E as <- <-. lia.
+  apply IH in H. lia.
+Qed.
+
+Lemma pieces_sep ps : forall off o1 p1 o2 p2, In (o1, p1) (pieces off ps) -> In (o2, p2) (pieces off ps) ->
+  o1 < o2 -> o1 + len p1 <= o2.
+Proof.
+  induction ps as [|q ps IH]; intros off o1 p1 o2 p2 H1 H2 Hlt; cbn [pieces] in *. contradiction.
+  destruct H1 as [E1|H1]; destruct H2 as [E2|H2].
+  - injection E1 as <- <-. injection E2 as <- <-. lia.
+  - injection E1 as <- <-. apply pieces_range in H2. lia.
+  - injection E2 as <- <-. apply pieces_range in H1. lia.
+  - eapply IH; eauto.
+Qed.
+
+Lemma recs_sum (m : chunkl) : sum_len (map (fun r => (fst r, len (snd r))) m) = dsum m.
+Proof. induction m as [|x m IH]; cbn [map sum_len dsum fold_right snd]. reflexivity. fold (dsum m). f_equal. exact IH. Qed.
+
+Lemma recs_chunks_ok ps (m : chunkl) : ps_ok ps -> NoDup (map fst m) -> incl m (pieces 0 ps) ->
+  chunks_ok (len (concat ps)) (map (fun r => (fst r, len (snd r))) m).
+Proof.
+  intros [Hne Hsz] Hnd Hi. split.
+  - induction m as [|[o dt] m IH]; cbn [map disjoint fst snd]. exact I.
+    cbn [map fst] in Hnd. apply NoDup_cons_iff in Hnd. destruct Hnd as [Ho Hnd].
+    split; [|apply IH; auto; intros y Hy; apply Hi; now right].
+    intros x Hx (o' & n' & Hin & Hx'). apply in_map_iff in Hin. destruct Hin as ([o2 dt2] & E & Hin2).
+    cbn [fst snd] in E. injection E as <- <-.
+    assert (In (o, dt) (pieces 0 ps)) as H1 by (apply Hi; now left).
+    assert (In (o2, dt2) (pieces 0 ps)) as H2 by (apply Hi; now right).
+    assert (o2 <> o) as Hne2. { intros ->. apply Ho. apply in_map_iff. exists (o, dt2). auto. }
+    destruct (N.lt_ge_cases o o2) as [Hl|Hl].
+    + pose proof (pieces_sep ps 0 o dt o2 dt2 H1 H2 Hl). lia.
+    + assert (o2 < o) as Hl2 by lia. pose proof (pieces_sep ps 0 o2 dt2 o dt H2 H1 Hl2). lia.
+  - apply Forall_forall. intros r Hr. apply in_map_iff in Hr. destruct Hr as ([o dt] & <- & Hin). cbn [fst snd].
+    apply Hi in Hin. pose proof (pieces_pos ps 0 Hne) as Hp. rewrite Forall_forall in Hp.
+    specialize (Hp _ Hin). cbn [snd] in Hp. apply pieces_range in Hin. lia.
+Qed.
+
+Lemma pinv_c16 ps pk : ps_ok ps -> pinv ps pk ->
+  chunks_ok (p_size pk) (p_recs pk) /\ p_cur pk = sum_len (p_recs pk) /\ p_size pk < W.
+Proof.
+  intros Hok (Hs & Hnd & Hi & Hc & _). unfold p_recs. rewrite Hs, recs_sum. split; [|split].
+  - apply recs_chunks_ok; auto.
+  - exact Hc.
+  - apply Hok.
+Qed.
+
+(* THE C16 INVARIANT: in every event of every run of an upload, for every announced file: the recorded
+   (offset, length) pairs are pairwise disjoint, non-empty, inside the file, and CurrentSize is their total *)
+Theorem recorded_chunks_ok d split its sts cuts evs w sf : split_ok split -> Forall (wf_item d) its ->
+  Forall (item_of d split) its -> irun d init_st its = Some sts ->
+  concat cuts = concat (map (wire d) its) -> run d cuts = (evs, w, sf) ->
+  forall e nm pk, In e evs -> afind name_eqb nm (e_files e) = Some pk ->
+    chunks_ok (p_size pk) (p_recs pk) /\ p_cur pk = sum_len (p_recs pk) /\ p_size pk < W.
+Proof.
+  intros Hsp Hall Hof H Hc Hr e nm pk Hin Hf.
+  destruct (event_state d its sts cuts evs w sf e Hall H Hc Hr Hin) as (x & Hx & Hfiles).
+  pose proof (irun_inv d split its init_st sts Hsp Hall Hof (rinv_init split) H) as Hinv.
+  rewrite Forall_forall in Hinv.
+  assert (rinv split (s_record x)) as Hrx.
+  { destruct Hx as [Hx| ->]. auto. destruct (last_in_or sts init_st) as [Hl| ->]. auto. apply rinv_init. }
+  rewrite Hfiles in Hf. apply (pinv_c16 (split nm)). apply Hsp. apply Hrx, Hf.
+Qed.
+
+(* ---------- the state before and after the i-th item ---------- *)
+Definition before (s : st) (sts : list st) (i : nat) : st := match i with O => s | S j => nth j sts s end.
+
+Lemma irun_nth d : forall its s sts i it s', irun d s its = Some sts ->
+  nth_error its i = Some it -> nth_error sts i = Some s' ->
+  Attach.step d (set_hist (before s sts i) (wire d it)) = O_ok s'.
+Proof.
+  induction its as [|it0 its IH]; intros s sts i it s' H Hi Hs. destruct i; discriminate.
+  cbn [irun] in H. destruct (Attach.step d (set_hist s (wire d it0))) as [s0| |] eqn:E; try discriminate.
+  destruct (irun d s0 its) as [l|] eqn:E2; [|discriminate]. injection H as <-.
+  destruct i as [|i]; cbn [nth_error] in Hi, Hs.
+  - injection Hi as <-. injection Hs as <-. exact E.
+  - pose proof (IH s0 l i it s' E2 Hi Hs) as Hst.
+    destruct i as [|j]; cbn [before nth] in *. exact Hst.
+    replace (nth j l s) with (nth j l s0). exact Hst.
+    apply nth_indep. assert (nth_error l (S j) <> None) as Hn by congruence. apply nth_error_Some in Hn. lia.
+Qed.
+
+Lemma irun_length d : forall its s sts, irun d s its = Some sts -> length sts = length its.
+Proof.
+  induction its as [|it its IH]; intros s sts H; cbn [irun] in H. injection H as <-. reflexivity.
+  destruct (Attach.step d (set_hist s (wire d it))) as [s'| |]; try discriminate.
+  destruct (irun d s' its) as [l|] eqn:E; [|discriminate]. injection H as <-. cbn [length]. f_equal. eauto.
+Qed.
+
+Lemma irun_nth_inv d split its sts i s' : split_ok split -> Forall (wf_item d) its -> Forall (item_of d split) its ->
+  irun d init_st its = Some sts -> nth_error sts i = Some s' -> rinv split (s_record s').
+Proof.
+  intros Hsp Hall Hof H Hs. pose proof (irun_inv d split its init_st sts Hsp Hall Hof (rinv_init split) H) as Hinv.
+  rewrite Forall_forall in Hinv. apply Hinv. eapply nth_error_In, Hs.
+Qed.
+
+(* THE 0x9212 LIST IS EXACT: the state reached by a 0x1212 for an announced file holds, as the list the answer
+   carries (replies_spec uses h_miss of that state), StatisticalMissSegments of the file's recorded chunks, which
+   satisfy what C16 assumes - so the list is what C16_exact says: ascending, maximal, inside the file, covering
+   exactly the bytes not yet received *)
+Theorem reply_1212_exact d split its sts i f m t s' pk : split_ok split -> Forall (wf_item d) its ->
+  Forall (item_of d split) its -> irun d init_st its = Some sts ->
+  nth_error its i = Some (I_frame f) -> decode f = Ok m -> m_id m = ID_1212 -> parse1211 (m_body m) = Ok t ->
+  nth_error sts i = Some s' -> afind name_eqb (f_name t) (s_record s') = Some pk ->
+  let size := p_size pk in let recs := p_recs pk in
+  let g := miss_segments size (sum_len recs) recs in
+  h_miss s' = g /\ size = len (content split (f_name t)) /\ chunks_ok size recs /\
+  sorted_maximal g /\ (forall x, covered g x -> x < size) /\
+  (forall x, x < size -> (covered g x <-> ~ covered recs x)) /\ sum_len g + sum_len recs = size.
+Proof.
+  intros Hsp Hall Hof H Hi Hd Hid Hp Hs Hf. cbv zeta.
+  pose proof (irun_nth d its init_st sts i (I_frame f) s' H Hi Hs) as Hst. cbn [wire] in Hst.
+  assert (vframe f) as Hv. { rewrite Forall_forall in Hall. apply (Hall (I_frame f)). eapply nth_error_In, Hi. }
+  pose proof (step_record d (before init_st sts i) (I_frame f) s' Hv Hst) as Hrec. cbn in Hrec.
+  assert (announced d f = []) as Ha.
+  { unfold announced. rewrite Hd, Hid. reflexivity. }
+  rewrite Ha in Hrec. cbn [announce fold_left] in Hrec.
+  rewrite Hrec in Hf.
+  destruct (frame_miss d (before init_st sts i) f s' Hv Hst m t pk Hd Hid Hp Hf) as [Hm _].
+  pose proof (irun_nth_inv d split its sts i s' Hsp Hall Hof H Hs) as Hr.
+  rewrite <- Hrec in Hf.
+  destruct (pinv_c16 (split (f_name t)) pk (Hsp _) (Hr _ _ Hf)) as (Hok & Hcur & Hsz).
+  rewrite Hcur in Hm. split. exact Hm. split. { destruct (Hr _ _ Hf) as (Hs1 & _). exact Hs1. }
+  split. exact Hok. exact (miss_exact (p_size pk) (p_recs pk) Hsz Hok).
+Qed.
+
+(* ---------- "complete iff all tiles arrived", at every event ---------- *)
+Lemma last_firstn_nth (sts : list st) : forall k s' d0, nth_error sts k = Some s' -> last (firstn (S k) sts) d0 = s'.
+Proof.
+  induction sts as [|x sts IH]; intros k s' d0 H. destruct k; discriminate.
+  destruct k as [|k]; cbn [nth_error] in H.
+  - injection H as <-. reflexivity.
+  - change (firstn (S (S k)) (x :: sts)) with (x :: firstn (S k) sts). rewrite last_cons_st. eapply IH, H.
+Qed.
+
+Lemma in_firstn {A} (x : A) : forall n l, In x (firstn n l) -> In x l.
+Proof.
+  induction n as [|n IH]; intros l H. contradiction. destruct l as [|y l]. contradiction.
+  cbn [firstn] in H. destruct H as [->|H]. now left. right. apply IH, H.
+Qed.
+
+Theorem complete_iff_every_state d split its sts k s' : split_ok split -> Forall (wf_item d) its ->
+  Forall (item_of d split) its -> irun d init_st its = Some sts -> nth_error sts k = Some s' ->
+  forall nm pk, afind name_eqb nm (s_record s') = Some pk ->
+  (p_cur pk = p_size pk <-> forall t, In t (tiles split nm) -> In t (arrived d nm [] (firstn (S k) its))).
+Proof.
+  intros Hsp Hall Hof H Hs nm pk Hf.
+  pose proof (irun_firstn d (S k) its init_st sts H) as Hk.
+  apply (complete_iff_state d split (firstn (S k) its) (firstn (S k) sts) Hsp).
+  - apply Forall_forall. intros x Hx. rewrite Forall_forall in Hall. apply Hall. eapply in_firstn, Hx.
+  - apply Forall_forall. intros x Hx. rewrite Forall_forall in Hof. apply Hof. eapply in_firstn, Hx.
+  - exact Hk.
+  - rewrite (last_firstn_nth sts k s' init_st Hs). exact Hf.
+Qed.
+
+Theorem complete_iff_every_event d split its sts cuts evs w sf k e : split_ok split -> Forall (wf_item d) its ->
+  Forall (item_of d split) its -> irun d init_st its = Some sts ->
+  concat cuts = concat (map (wire d) its) -> run d cuts = (evs, w, sf) ->
+  nth_error evs k = Some e -> (k < length its)%nat ->
+  forall nm pk, afind name_eqb nm (e_files e) = Some pk ->
+  (p_cur pk = p_size pk <-> forall t, In t (tiles split nm) -> In t (arrived d nm [] (firstn (S k) its))).
+Proof.
+  intros Hsp Hall Hof H Hc Hr He Hk nm pk Hf.
+  destruct (segmentation d its sts cuts Hall H Hc) as (evs' & Hr' & Hev).
+  rewrite Hr in Hr'. injection Hr' as <- _ _.
+  pose proof (irun_length d its init_st sts H) as Hlen.
+  destruct (nth_error sts k) as [s'|] eqn:Es. 2:{ apply nth_error_None in Es. lia. }
+  assert (e_files e = s_record s') as Hfiles.
+  { apply (f_equal (fun l => nth_error l k)) in Hev. rewrite nth_error_map, He in Hev. cbn [option_map] in Hev.
+    rewrite nth_error_app1 in Hev by (rewrite map_length; lia). rewrite nth_error_map, Es in Hev.
+    cbn [option_map] in Hev.
+    apply (f_equal (fun o => match o with Some x => e_files x | None => [] end)) in Hev. exact Hev. }
+  rewrite Hfiles in Hf. eapply complete_iff_every_state; eauto.
+Qed.
+
+(* in an upload the file a 0x1212 names is in the Record when the frame arrives *)
+Lemma upload_1212_known d : forall its s known sts i f m t s', Forall (wf_item d) its ->
+  upload_ok d known its = true -> (forall nm, In nm known -> afind name_eqb nm (s_record s) <> None) ->
+  irun d s its = Some sts -> nth_error its i = Some (I_frame f) -> decode f = Ok m -> m_id m = ID_1212 ->
+  parse1211 (m_body m) = Ok t -> nth_error sts i = Some s' -> afind name_eqb (f_name t) (s_record s') <> None.
+Proof.
+  induction its as [|it its IH]; intros s known sts i f m t s' Hall Hu Hk H Hi Hd Hid Hp Hs. destruct i; discriminate.
+  apply Forall_cons_iff in Hall. destruct Hall as [Hw Hall]. cbn [irun] in H.
+  destruct (Attach.step d (set_hist s (wire d it))) as [s0| |] eqn:E; try discriminate.
+  destruct (irun d s0 its) as [l|] eqn:E2; [|discriminate]. injection H as <-.
+  pose proof (step_record d s it s0 Hw E) as Hrec.
+  destruct i as [|i]; cbn [nth_error] in Hi, Hs.
+  - injection Hi as ->. injection Hs as <-. cbn [upload_ok] in Hu.
+    apply andb_true_iff in Hu. destruct Hu as [Hu _]. apply andb_true_iff in Hu. destruct Hu as [_ Hn].
+    unfold named_1212 in Hn. rewrite Hd, Hid in Hn. cbn [ID_1212 N.eqb Pos.eqb] in Hn. rewrite Hp in Hn.
+    cbn [forallb] in Hn. rewrite andb_true_r in Hn. apply existsb_exists in Hn. destruct Hn as (nm & Hin & En).
+    apply name_eqb_spec in En. subst nm. cbn in Hrec. rewrite Hrec.
+    assert (announced d f = []) as -> by (unfold announced; rewrite Hd, Hid; reflexivity).
+    cbn [announce fold_left]. apply Hk, Hin.
+  - destruct it as [nm off data|f0]; cbn [upload_ok] in Hu.
+    + apply andb_true_iff in Hu. destruct Hu as [_ Hu]. destruct Hrec as (pk & Hf & Hrec).
+      eapply (IH s0 known); eauto. intros nm' Hin'. rewrite Hrec.
+      destruct (list_eq_dec N.eq_dec nm' nm) as [->|Hne].
+      rewrite (afind_aset_same name_eqb name_eqb_spec). discriminate.
+      rewrite (afind_aset_other name_eqb name_eqb_spec) by exact Hne. auto.
+    + apply andb_true_iff in Hu. destruct Hu as [_ Hu].
+      eapply (IH s0 (map fst (announced d f0) ++ known)); eauto. intros nm Hin. cbn in Hrec. rewrite Hrec.
+      apply in_app_or in Hin. destruct Hin as [Hin|Hin]. apply announce_adds, Hin. apply announce_keeps, Hk, Hin.
+Qed.
+
+(* the statements of Props/C15.v with the syntactic hypothesis upload_ok *)
+Theorem recorded_chunks_ok_upload d split its cuts evs w sf : split_ok split -> Forall (wf_item d) its ->
+  Forall (item_of d split) its -> upload_ok d [] its = true ->
+  concat cuts = concat (map (wire d) its) -> run d cuts = (evs, w, sf) ->
+  forall e nm pk, In e evs -> afind name_eqb nm (e_files e) = Some pk ->
+    chunks_ok (p_size pk) (p_recs pk) /\ p_cur pk = sum_len (p_recs pk) /\ p_size pk < W.
+Proof.
+  intros Hsp Hall Hof Hu Hc Hr. destruct (upload_accepted d its init_st [] Hall Hu) as (sts & H). intros nm [].
+  eapply recorded_chunks_ok; eauto.
+Qed.
+
+Theorem complete_iff_every_event_upload d split its cuts evs w sf k e : split_ok split -> Forall (wf_item d) its ->
+  Forall (item_of d split) its -> upload_ok d [] its = true ->
+  concat cuts = concat (map (wire d) its) -> run d cuts = (evs, w, sf) ->
+  nth_error evs k = Some e -> (k < length its)%nat ->
+  forall nm pk, afind name_eqb nm (e_files e) = Some pk ->
+  (p_cur pk = p_size pk <-> forall t, In t (tiles split nm) -> In t (arrived d nm [] (firstn (S k) its))).
+Proof.
+  intros Hsp Hall Hof Hu Hc Hr. destruct (upload_accepted d its init_st [] Hall Hu) as (sts & H). intros nm [].
+  eapply complete_iff_every_event; eauto.
+Qed.
+
+Theorem reply_1212_exact_upload d split its sts i f m t s' : split_ok split -> Forall (wf_item d) its ->
+  Forall (item_of d split) its -> upload_ok d [] its = true -> irun d init_st its = Some sts ->
+  nth_error its i = Some (I_frame f) -> decode f = Ok m -> m_id m = ID_1212 -> parse1211 (m_body m) = Ok t ->
+  nth_error sts i = Some s' ->
+  exists pk, afind name_eqb (f_name t) (s_record s') = Some pk /\
+  let size := p_size pk in let recs := p_recs pk in
+  let g := miss_segments size (sum_len recs) recs in
+  h_miss s' = g /\ size = len (content split (f_name t)) /\ chunks_ok size recs /\
+  sorted_maximal g /\ (forall x, covered g x -> x < size) /\
+  (forall x, x < size -> (covered g x <-> ~ covered recs x)) /\ sum_len g + sum_len recs = size.
+Proof.
+  intros Hsp Hall Hof Hu H Hi Hd Hid Hp Hs.
+  assert (afind name_eqb (f_name t) (s_record s') <> None) as Hn.
+  { eapply (upload_1212_known d its init_st [] sts i f m t s'); eauto. }
+  destruct (afind name_eqb (f_name t) (s_record s')) as [pk|] eqn:Ef; [|congruence].
+  exists pk. split. reflexivity. eapply reply_1212_exact; eauto.
 Qed.
